@@ -118,10 +118,15 @@ func loadCtx(repo, tier string, extraEnv []string, buildFlags []string) (*Ctx, e
 		return nil, err
 	}
 	c.Renamed = append(c.Renamed, snotes...)
-	if k, err := normaliseSyntax(map[string]*packages.Package{pathRoot: c.Root, pathW: c.W, pathCmd: c.Cmd}); err != nil {
+	k, nnotes, err := normaliseSyntax(map[string]*packages.Package{pathRoot: c.Root, pathW: c.W, pathCmd: c.Cmd})
+	c.Renamed = append(c.Renamed, nnotes...)
+	if err != nil {
 		return nil, err
 	} else if k > 0 {
 		c.Renamed = append(c.Renamed, fmt.Sprintf("%d conditions brought into negation normal form / constant-on-the-right form", k))
+	}
+	for _, p := range []*packages.Package{c.Root, c.W, c.Cmd} {
+		indexOrder(p.Syntax)
 	}
 	for _, p := range []*packages.Package{c.Root, c.W, c.Cmd} {
 		for _, f := range p.Syntax {
